@@ -29,6 +29,9 @@ type C18Case struct {
 	// Crowd (chain-connect modes): before the case proper, this many CONNECTs are sent at the same instant on
 	// connections of their own, each with a Via chain of its own: every one reaches the upstream proxy with its chain
 	Crowd int `json:"crowd,omitempty"`
+	// Upgrade: the request asks for a protocol upgrade (Connection: Upgrade) - a forwarded request like any other; the
+	// origin answers it with an ordinary 200
+	Upgrade bool `json:"upgrade,omitempty"`
 }
 
 type c18Env struct {
@@ -174,6 +177,7 @@ func genC18(t *rapid.T) C18Case {
 	c.Form = rapid.SampledFrom([]string{"abs", "abs", "origin"}).Draw(t, "form")
 	c.HTTP10 = rapid.IntRange(0, 5).Draw(t, "http10") == 0
 	c.ViaName = rapid.SampledFrom([]string{"Via", "Via", "via", "VIA"}).Draw(t, "vianame")
+	c.Upgrade = !strings.HasPrefix(c.Mode, "chain-connect") && rapid.IntRange(0, 3).Draw(t, "upgrade") == 0
 	if strings.HasPrefix(c.Mode, "chain-connect") && rapid.Bool().Draw(t, "crowd") {
 		c.Crowd = rapid.SampledFrom([]int{2, 4, 16, 48}).Draw(t, "crowdsize")
 	}
@@ -393,6 +397,9 @@ func runC18(c C18Case) (fails []vstat.Failure) {
 		target = "http://" + host + "/c18"
 	}
 	req := fmt.Sprintf("GET %s %s\r\nHost: %s\r\nX-Vid: %s\r\n", target, proto, host, vid)
+	if c.Upgrade {
+		req += "Connection: Upgrade\r\nUpgrade: verif-proto\r\n"
+	}
 	for _, l := range lines {
 		req += l + "\r\n"
 	}
@@ -463,6 +470,9 @@ func classifyC18(c C18Case) (bool, string, []string) {
 	cls := []string{"mode-" + c.Mode, fmt.Sprintf("elems=%d", len(c.Elems)), fmt.Sprintf("lines=%d", len(c.Lines))}
 	if c.Crowd > 0 {
 		cls = append(cls, "simultaneous-connects")
+	}
+	if c.Upgrade {
+		cls = append(cls, "upgrade-request")
 	}
 	own, b, same := false, false, false
 	ownPos := -1
